@@ -285,16 +285,22 @@ where
 {
     fn from(ck: &CommitterKeyStream<E, SG>) -> Self {
         let powers_of_g2 = ck.powers_of_g2.to_vec();
-        // take the first element from the stream
-        let g = *ck
+        // The stream lists the powers of g from the highest to the lowest. Keep the lowest
+        // `max_eval_points` of them (at least g itself), as the time-efficient key does:
+        // `verify_multi_points` commits to the interpolated remainder with them.
+        let keep = powers_of_g2.len().saturating_sub(1).max(1);
+        let skip = ck.powers_of_g.len().saturating_sub(keep);
+        let mut powers_of_g = ck
             .powers_of_g
             .iter()
-            .last()
-            .expect(LENGTH_MISMATCH_MSG)
-            .borrow();
+            .skip(skip)
+            .map(|x| *x.borrow())
+            .collect::<Vec<_>>();
+        powers_of_g.reverse();
+        assert!(!powers_of_g.is_empty(), "{}", LENGTH_MISMATCH_MSG);
         Self {
             powers_of_g2,
-            powers_of_g: vec![g],
+            powers_of_g,
         }
     }
 }
